@@ -49,7 +49,7 @@ ID = "C08"
 READY = True
 ORACLE = "c08"
 HARNESS_BIN = "c08"
-NCASES = {"quick": 16000, "thorough": 300000}
+NCASES = {"quick": 16000, "thorough": 150000}
 CASE_TIMEOUT = {"quick": 30, "thorough": 120}
 MODES = ["Zero", "Away", "Up", "Down", "HalfEven", "HalfAway"]
 BASES = [2, 2, 3, 8, 10, 10, 16, 36]
@@ -140,7 +140,7 @@ LEVEL_NOTE = ("Partial: the ln/exp route of convert_base (|e| > 38) stays an OPE
 TECHNIQUE = "Coq proof (as-is models of parser, printer incl. padding, with_precision, every convert_base route, with_base precision, IEEE import, from_parts_const = specification or proved contract; print->parse round trip; regenerated fragments) + extracted specification, as-is models and contract checker on a correspondence run"
 RULE = ("cases = API (FromStr / from_str_native for FBig and Repr; Display, LowerExp, UpperExp, Debug for FBig and Repr with flags + 0 < > ^ "
         "x width x precision option; print-then-parse round trips; with_precision; with_base, with_base_and_precision, to_decimal, "
-        "to_binary; with_base's precision alone (wb_prec: source precisions where NewB^n <= B^p is tight, convergents of log NB / log B, up to 2^14 digits, 2^17 thorough); "
+        "to_binary; with_base's precision alone (wb_prec: source precisions where NewB^n <= B^p is tight, convergents of log NB / log B, up to 2^14 digits, 2^15 thorough); "
         "TryFrom<f32/f64> for FBig and Repr; from_parts_const with DoubleWord significands around every power of the base incl. the largest that fits) x base {2,3,8,10,16,36} "
         "(base changes: 15 source bases x their targets: same, power up/down, common root, multiple, coprime) x six modes x precision "
         "{0 (unlimited),1,2,3,5,10,17,24,53,64,100} x significand digit counts {1,2,p-1,p} incl. all-(B-1) and 10..0 patterns x "
@@ -411,7 +411,7 @@ def gen_conv(rng, tier, b):
 
 def gen_wb_prec(rng, tier):
     """FBig::with_base's precision: source precisions at the places where NewB^n <= B^p is tight (p = ceil(n log NB / log B)
-    and its neighbours, for n up to 2^14, 2^17 thorough), small precisions, powers of two, the convergents of log NB / log B"""
+    and its neighbours, for n up to 2^14, 2^15 thorough), small precisions, powers of two, the convergents of log NB / log B"""
     import math
     cls = rng.choice(["up", "down", "root", "other", "other", "other", "other"])
     b, nb = rng.choice(PAIRS_BY_CLASS[cls])
@@ -420,7 +420,7 @@ def gen_wb_prec(rng, tier):
     if k < 3:
         p0 = rng.choice([0, 1, 1, 2, 3, 4, 5, 7, 10, 17, 24, 53, 64, 100, 113, 237])
     elif k < 8:
-        n = rng.range(1, (1 << 17) if tier == "thorough" else (1 << 14))
+        n = rng.range(1, (1 << 15) if tier == "thorough" else (1 << 14))
         if rng.chance(1, 3):
             n = rng.choice([1 << rng.range(1, 13), (1 << rng.range(1, 13)) + 1, (1 << rng.range(2, 13)) - 1])
         p0 = max(1, int(math.ceil(n * ratio)) + rng.choice([-1, 0, 0, 0, 1]))
@@ -432,7 +432,7 @@ def gen_wb_prec(rng, tier):
             a = int(math.floor(x))
             h0, h1 = h1, a * h1 + h0
             k0, k1 = k1, a * k1 + k0
-            if 0 < h1 < (200000 if tier == "thorough" else 30000):
+            if 0 < h1 < (60000 if tier == "thorough" else 30000):
                 cands.append(h1)
             if x - a < 1e-12:
                 break
